@@ -352,7 +352,9 @@ Definition handle_q (quiet : bool) (s : kstate) (u : nat) (t : trig) (sn : nat) 
       else
         let shown := match t with TP _ => snd | _ => rNone end in
         let '(s1, o, p) := do_actions s u snd (find_rule (rules (role_of a)) t (a_inst a)) in
-        (s1, OH (a_tok a) (a_inst a) t sn shown :: o, p)
+        (* the handlers of an actor that is restarting or terminating are part of that lifecycle step: a panic in one of
+           them is logged and the step goes on *)
+        (s1, OH (a_tok a) (a_inst a) t sn shown :: o, p && negb (not_alive (a_st a)))
   end.
 Definition handle (s : kstate) (u : nat) (t : trig) (sn : nat) (snd : ref) : R :=
   match get s u with
